@@ -159,16 +159,23 @@ Definition modelled_setters : list (string * bool) :=
    ("setCellHeight", false); ("setNetWeights", false); ("setSolution", false)].
 
 (* the other member functions that may change something: the placement entry points (modelled by Api.call: they
-   only take the in-use flag and hand *this to the algorithms) and the two expansion functions (C18: widths) *)
+   only take the in-use flag THROUGH ITS SCOPE GUARD and hand *this to the algorithms, or -- the inline effort overloads and
+   place(effort) of coloquinte.hpp -- only call other entry points) and the two expansion functions (C18: widths) *)
 Definition entry_methods : list string := ["placeGlobal"; "legalize"; "placeDetailed"; "place"].
 Definition expansion_methods : list string := ["expandCellsToDensity"; "expandCellsByFactor"].
 
 (* the table lists a hand-over of *this as a non-const reference as the pseudo-field "@pass:<callee>" *)
 Definition is_pass (f : string) : bool := String.prefix "@pass:" f.
+(* the table lists the in-use flag HANDED TO ITS SCOPE GUARD as the pseudo-field "@raii:isInUse_": an automatic variable, declared as a
+   statement of the function body, of a class that the generator recognises by its shape (constructor saves the flag and sets it, destructor
+   gives the saved value back, not copyable) -- the flag is set for exactly the rest of the function and restored on EVERY exit, return or
+   exception.  A direct assignment `isInUse_ = ...` is listed as a write of the plain field "isInUse_", which no rule below tolerates: a
+   hand-written "set before, clear after" has no exception path (seeded defect C10-10: inline Circuit::place(effort)) *)
+Definition raii_flag : string := "@raii:isInUse_".
 (* an entry point takes the in-use flag (constructs the guard object on isInUse_) BEFORE it hands the circuit on *)
 Definition guard_before_pass (ws : list (string * nat)) : bool :=
   forallb (fun w => negb (is_pass (fst w)) ||
-                    existsb (fun g => String.eqb (fst g) "isInUse_" && Nat.ltb (snd g) (snd w)) ws) ws.
+                    existsb (fun g => String.eqb (fst g) raii_flag && Nat.ltb (snd g) (snd w)) ws) ws.
 
 Definition lookup_guarded (n : string) : option bool :=
   match filter (fun p => String.eqb (fst p) n) modelled_setters with
@@ -189,7 +196,8 @@ Definition method_okb (m : cmethod) : bool :=
        | None =>
            Nat.eqb (m_guard m) 0
            && (if mem (m_name m) entry_methods
-               then forallb (fun w => String.eqb (fst w) "isInUse_" || is_pass (fst w)) (m_writes m) && guard_before_pass (m_writes m)
+               then forallb (fun w => String.eqb (fst w) raii_flag || is_pass (fst w)) (m_writes m) && guard_before_pass (m_writes m)
+                    && forallb (fun c => mem c entry_methods) (m_calls m)
                else if mem (m_name m) expansion_methods then forallb (fun w => String.eqb (fst w) "cellWidth_") (m_writes m)
                else match m_writes m with [] => true | _ => false end)
        end.
@@ -197,7 +205,9 @@ Definition method_okb (m : cmethod) : bool :=
 Definition circuit_methods_okb (ms : list cmethod) : bool :=
   forallb method_okb ms
   (* non-degenerate: every modelled setter exists as a public non-const member function *)
-  && forallb (fun p => existsb (fun m => String.eqb (m_name m) (fst p) && m_public m && negb (m_const m)) ms) modelled_setters.
+  && forallb (fun p => existsb (fun m => String.eqb (m_name m) (fst p) && m_public m && negb (m_const m)) ms) modelled_setters
+  (* ... and so does every placement entry point, place(effort) included: the member functions DEFINED INLINE in coloquinte.hpp are in the table *)
+  && forallb (fun n => existsb (fun m => String.eqb (m_name m) n && m_public m && negb (m_const m)) ms) entry_methods.
 
 Definition methods_ok (ms : list cmethod) : Prop :=
   (forall m, In m ms -> m_const m = false ->
@@ -209,5 +219,10 @@ Definition methods_ok (ms : list cmethod) : Prop :=
                In (m_name m) (map fst modelled_setters) \/ In (m_name m) entry_methods \/ In (m_name m) expansion_methods) /\
      (* R4 *) (In (m_name m) entry_methods -> ~ In (m_name m) (map fst modelled_setters) ->
                forall w, In w (m_writes m) -> is_pass (fst w) = true ->
-               exists g, In g (m_writes m) /\ fst g = "isInUse_" /\ (snd g < snd w)%nat)) /\
-  (forall p, In p modelled_setters -> exists m, In m ms /\ m_name m = fst p /\ m_public m = true /\ m_const m = false).
+               exists g, In g (m_writes m) /\ fst g = raii_flag /\ (snd g < snd w)%nat) /\
+     (* R5 *) (In (m_name m) entry_methods -> ~ In (m_name m) (map fst modelled_setters) ->
+               forall w, In w (m_writes m) -> fst w = raii_flag \/ is_pass (fst w) = true) /\
+     (* R6 *) (In (m_name m) entry_methods -> ~ In (m_name m) (map fst modelled_setters) ->
+               forall c, In c (m_calls m) -> In c entry_methods)) /\
+  (forall p, In p modelled_setters -> exists m, In m ms /\ m_name m = fst p /\ m_public m = true /\ m_const m = false) /\
+  (forall n, In n entry_methods -> exists m, In m ms /\ m_name m = n /\ m_public m = true /\ m_const m = false).
